@@ -102,7 +102,24 @@ func c04() []*Ob {
 						// range refinement: a lower bound carried to the next search must not exceed this search's result
 						// (the result is the first position <= id; for an absent id it is the next smaller stored id, which a later id may equal)
 						if lo, ok := bs.Common().Args[0].(*ssa.Phi); ok {
-							for _, e := range lo.Edges {
+							seenPhi := map[*ssa.Phi]bool{}
+							var edges []ssa.Value
+							var collect func(p *ssa.Phi)
+							collect = func(p *ssa.Phi) {
+								if seenPhi[p] {
+									return
+								}
+								seenPhi[p] = true
+								for _, e := range p.Edges {
+									if pp, isPhi := e.(*ssa.Phi); isPhi {
+										collect(pp)
+									} else {
+										edges = append(edges, e)
+									}
+								}
+							}
+							collect(lo)
+							for _, e := range edges {
 								if bo, isAdd := stripConvs(e).(*ssa.BinOp); isAdd && bo.Op == token.ADD {
 									if k, isK := ConstInt(bo.Y); isK && k > 0 && DerivesFrom(bo.X, func(v ssa.Value) bool { return v == r }) {
 										c.Violation("index:"+FuncName(fn)+":lower-bound-past-result", bo.Pos(), "in %s the lower bound of the next search is the previous result + %d: when the previous id was absent its result position holds the next smaller stored id, which is then excluded (a present document is reported not found)", FuncName(fn), k)
